@@ -4,3 +4,4 @@ import TjdProps.C05
 import TjdProps.C07
 import TjdProps.C14
 import TjdProps.C15
+import TjdProps.C02
